@@ -55,8 +55,8 @@ func TestGrpcDuplex(t *testing.T) {
 			for mask := 0; mask < 16; mask++ {
 				for ci := 0; ci < 9; ci++ {
 					ops := map[string]grpcOp{
-						"recv": {Kind: "recv", Grant: mask&1 != 0, Err: mask&2 != 0, Cls: cls[ci%3], LeCode: "Aborted", Ctx: "live"},
-						"send": {Kind: "send", Grant: mask&4 != 0, Err: mask&8 != 0, Cls: cls[ci/3], LeCode: "Unavailable", Ctx: "live"},
+						"recv": {Kind: "recv", Grant: mask&1 != 0, Err: mask&2 != 0, Cls: cls[ci%3], LeCode: "Aborted", LeErr: []string{"plain", "status", "wrapped"}[ci%3], Ctx: "live"},
+						"send": {Kind: "send", Grant: mask&4 != 0, Err: mask&8 != 0, Cls: cls[ci/3], LeCode: "Unavailable", LeErr: []string{"wrapped", "plain", "status"}[ci%3], Ctx: "live"},
 					}
 					if !cfg.Custom && ci != 0 {
 						continue // the classification is not consulted
@@ -80,7 +80,7 @@ func TestGrpcDuplex(t *testing.T) {
 					}
 					_ = st.ss(nil, fs, &golangGrpc.StreamServerInfo{FullMethod: "/svc/S"}, func(srv interface{}, ss golangGrpc.ServerStream) error {
 						call := func(d string) {
-							m := grpcMsg{le: ops[d].LeCode, cls: ops[d].Cls}
+							m := grpcMsg{le: ops[d].LeCode, cls: ops[d].Cls, leerr: ops[d].LeErr}
 							var err error
 							if d == "recv" {
 								err = ss.RecvMsg(m)
@@ -191,7 +191,7 @@ func TestGrpcStreamSequence(t *testing.T) {
 			for i, nops := 0, r.between(4, 14); i < nops; i++ {
 				inner := results[r.intn(len(results))]
 				op := grpcOp{Kind: []string{"recv", "send"}[r.intn(2)], Grant: r.chance(3, 4), Err: inner != nil, Cls: r.pick(cls),
-					LeCode: []string{"Unavailable", "Aborted"}[r.intn(2)], Ctx: "live"}
+					LeCode: []string{"Unavailable", "Aborted"}[r.intn(2)], LeErr: []string{"plain", "status", "wrapped"}[r.intn(3)], Ctx: "live"}
 				rec.mu.Lock()
 				rec.asked, rec.completed, rec.ran, rec.grant = nil, nil, 0, op.Grant
 				rec.mu.Unlock()
